@@ -62,6 +62,7 @@ def simp(t):
 
 class SymExec:
     """Evaluates the straight-line / if fragment murmur2 is written in, on symbolic 32-bit terms."""
+    module_consts = {}      # module-level integer constants of the partitioner module (a literal may be given a name there)
 
     def __init__(self, env, pinned=None, tail_len=None, len_name=None):
         self.env = dict(env)
@@ -140,6 +141,8 @@ class SymExec:
             if isinstance(v, dict):
                 raise AnalysisError(f"murmur2: index variable {e.id} used as a value")
             if v is None:
+                if e.id in SymExec.module_consts:
+                    return C(SymExec.module_consts[e.id])
                 raise AnalysisError(f"murmur2: unbound name {e.id}")
             return v
         if isinstance(e, ast.Subscript) and not isinstance(e.slice, ast.Slice) and isinstance(e.value, ast.Name) and self.env.get(e.value.id) == S("data"):
@@ -377,6 +380,9 @@ def rule_murmur(ctx):
         else:
             preA.append(s)
     ctx.anchor(ln is not None, "length = len(data)")
+    SymExec.module_consts = {st.targets[0].id: const_value(st.value) for st in fi.module.tree.body
+                             if isinstance(st, ast.Assign) and len(st.targets) == 1 and isinstance(st.targets[0], ast.Name) and isinstance(const_value(st.value), int)
+                             and not isinstance(const_value(st.value), bool)}
     se = SymExec({p: S("data"), ln: S("len")}, len_name=ln)
     # block count variable(s): X = length // 4 (also length >> 2)
     cnt = [s for s in preA if isinstance(s, ast.Assign) and isinstance(s.targets[0], ast.Name) and unparse(s.value) in (f"{ln} // 4", f"{ln} >> 2")]
@@ -505,6 +511,8 @@ def rule_width(ctx):
                 self.depth = 0
 
             def visit_Name(self, n):
+                if isinstance(n.ctx, ast.Load) and n.id not in ps and n.id in mconsts and not local_defs(c, n.id):
+                    return ast.Constant(value=mconsts[n.id])      # a module-level name for a literal
                 if isinstance(n.ctx, ast.Load) and n.id not in ps and self.depth < 4:
                     e = _expand_chain(c, n, rets[0])
                     if e is not None:
@@ -513,6 +521,9 @@ def rule_width(ctx):
                         self.depth -= 1
                         return out
                 return n
+        mconsts = {st.targets[0].id: const_value(st.value) for st in fc.module.tree.body
+                   if isinstance(st, ast.Assign) and len(st.targets) == 1 and isinstance(st.targets[0], ast.Name) and isinstance(const_value(st.value), int)
+                   and not isinstance(const_value(st.value), bool)}
         expr = _Exp().visit(ast.parse(unparse(sl), mode="eval").body)
         want = f"(murmur2({ps[1]}) & 2147483647) % len({ps[2]})"
         ok = expr is not None and unparse(expr) == want and unparse(rets[0].ast.value.value) == ps[2]
@@ -589,6 +600,14 @@ def rule_route(ctx):
     pc = ctx.one(cs.calls(attr="_partition"), "_partition call in send")
     a = [unparse(x) for x in pc.ast.args]
     ctx.ob(R, fs, pc, len(a) == 6 and a[4] == "key_bytes" and a[0] == "topic", f"_partition({a})", text="send-passes-key-bytes")
+    # ... and the CALLER's partition: the explicit-partition path skips the partitioner (and with it the availability filter), so send() may
+    # take it only with the value the application passed -- the parameter reaches _partition un-rebound
+    pn = fs.params()
+    pname = "partition" if "partition" in pn else None
+    rebinds = [d for d in local_defs(cs, pname or "") if cs.path_exists(d, pc, exc=False)] if pname else []
+    ctx.ob(R, fs, pc, pname is not None and len(a) >= 2 and a[1] == pname and not rebinds,
+           f"send() passes `{a[1] if len(a) > 1 else '?'}` as the explicit partition" + (f" after re-binding it at line {rebinds[0].lineno}" if rebinds else "") +
+           ": a partition chosen by send() itself bypasses the partitioner and its available-partitions filter", text="send-passes-user-partition")
     f0 = ctx.fn("aiokafka.producer.producer.AIOKafkaProducer.__init__")
     mod = ctx.repo.module("aiokafka.producer.producer")
     dflt = [unparse(s.value) for s in mod.tree.body if isinstance(s, ast.Assign) and unparse(s.targets[0]) == "_DEFAULT_PARTITIONER"]
